@@ -80,7 +80,7 @@ def cases(draw, tier):
                          "stale": draw(st.integers(0, 2)) == 0})
         elif draw(st.integers(0, 6)) == 0:
             prog.append({"op": "compress_scaled", "a": draw(st.integers(0, 9)), "on": draw(st.sampled_from(["S", "S", "M"])),
-                         "exp": draw(st.sampled_from([-10, -14, -6, 8])), "dir": draw(st.integers(0, 1))})
+                         "exp": draw(st.sampled_from([-10, -14, -17, -20, -6, 8])), "dir": draw(st.integers(0, 1))})
         else:
             prog.append(draw(chain.gauge_instr(draw(st.sampled_from(["S", "S", "S", "O", "M"])))))
     return {"model": spec, "prog": prog}
